@@ -93,6 +93,9 @@ type Case struct {
 	// RawBytes: every rune U+F780..U+F7FF in the text fields stands for the single byte
 	// 0x80..0xFF (bytes that are not valid UTF-8 cannot be stored in JSON).
 	RawBytes bool `json:"raw_bytes,omitempty"`
+	// After: "fragment", "document" or "both": the case is (also) formatted on a Formatter whose
+	// previous call failed on a too deeply nested fragment / document.
+	After string `json:"after,omitempty"`
 }
 
 const longTok = "\uF6FF"
@@ -393,8 +396,53 @@ func short(s string) string {
 // check is the property: idempotence, then preservation.
 func check(c Case) error {
 	c = c.expanded()
+	if c.After != "" {
+		// the same Formatter value, right after a call that failed
+		f := newFormatter(c)
+		failBefore(f, c.After)
+		if err := checkWith(c, f); err != nil {
+			return fmt.Errorf("on a Formatter whose previous Format call failed (%s): %w", c.After, err)
+		}
+	}
+	return checkWith(c, newFormatter(c))
+}
+
+// Format can refuse one kind of input: markup nested deeper than the HTML parser's limit of 512
+// open elements. What such a failed call leaves behind must not show in the next result.
+var (
+	deepMarkup   = strings.Repeat("<div>", 600) + "x" + strings.Repeat("</div>", 600)
+	deepFragment = "---\ntitle: broken page\nlayout: poison\n---\n" + deepMarkup + "\n"
+	deepDocument = "<!DOCTYPE html SYSTEM \"poison\">\n<html><body>" + deepMarkup + "</body></html>\n"
+)
+
+// failBefore makes f fail: after = "fragment" (front matter + too deep fragment), "document"
+// (doctype + too deep document) or "both". That the call fails is not part of the statement:
+// it is counted, not asserted.
+func failBefore(f *formatter.Formatter, after string) {
+	var inputs []string
+	switch after {
+	case "fragment":
+		inputs = []string{deepFragment}
+	case "document":
+		inputs = []string{deepDocument}
+	default:
+		inputs = []string{deepFragment, deepDocument}
+	}
+	for _, in := range inputs {
+		_, err := f.Format(in)
+		if theRec != nil {
+			if err != nil {
+				theRec.Count("after-failure:previous-call-failed", 1)
+			} else {
+				theRec.Count("after-failure:previous-call-did-not-fail", 1)
+			}
+		}
+	}
+}
+
+// checkWith decides the property for one case on the given Formatter.
+func checkWith(c Case, f *formatter.Formatter) error {
 	src := c.source()
-	f := newFormatter(c)
 	o1, err := f.Format(src)
 	if err != nil {
 		if c.MustFormat {
@@ -790,6 +838,9 @@ func classify(c Case) (bool, []string) {
 	set := map[string]bool{}
 	add := func(s string) { set[s] = true }
 	add("family:" + c.Kind)
+	if c.After != "" {
+		add("after-failure:" + c.After)
+	}
 	if c.Long > 0 && strings.Contains(c.Body, longTok) {
 		add(fmt.Sprintf("long-line:%d", c.Long))
 	}
@@ -1026,6 +1077,7 @@ func TestProp(t *testing.T) {
 			rec.Note("corpus input %s skipped: in the region of open finding(s) %s", c.Name, strings.Join(open, ","))
 			continue
 		}
+		c.After = []string{"", "fragment", "document", "both"}[i%4]
 		nt, cls := classify(c)
 		run.Each(rec, "corpus", c, nt, cls, check)
 		done++
